@@ -34,7 +34,7 @@ PROPS = {
         not_covered='Obj/Seq PartialOrd (std Vec comparison), ncmp, ComparisonOperator, Extremum, sorted; incomparable kinds raise',
     ),
     'C09': dict(
-        units=['nint', 'nnumcmp'],
+        units=['nint', 'nnumcmp', 'keys'],
         not_covered='dictionary operations (std HashMap + closures in lib.rs); Dict-inside-key arm',
     ),
     'C11': dict(
